@@ -445,9 +445,9 @@ def make_cases(rng, tier, wd):
     progs = systematic()
     nsys = len(progs)
     if quick:
-        progs = progs[rng.randrange(6)::6]
+        progs = progs[rng.randrange(8)::8]
         nsys = len(progs)
-    n = 2000 if quick else 40000
+    n = 1500 if quick else 40000
     for k in range(n):
         g = Gen(rng, depth=3 if k % 3 else 2)
         progs.append(g.stylesheet())
